@@ -119,7 +119,7 @@ CHECKS = {
         "text": "For 7 resource lengths around multiples of the chunk size "
                 "x chunk sizes {4,5,8} x keep_chunks {1,2,3} x server "
                 "flavours, every seek(set/cur/end)/tell/read(n) history to "
-                "depth 3 (quick) / 4 (thorough), reads beyond EOF as "
+                "depth 5 (quick) / 6 (thorough), reads beyond EOF as "
                 "deviations: returned bytes, position and the cache bound "
                 "are checked in every state. Generated .rtdc files served "
                 "by the fake host: RTDC_HTTP equals RTDC_HDF5 (features, "
@@ -213,7 +213,7 @@ CHECKS = {
                      "chains (states = files, transitions = filtered "
                      "exports with basins) on the real exporter/basin code",
         "text": "From a 5-event origin, every chain of nested filter masks "
-                "to depth 2 (quick) / 3 (thorough) is exported with basins "
+                "to depth 3 (quick: depth 2 for the variants with stored features / hierarchy child) is exported with basins "
                 "(no stored features, mixed stored features, export from a "
                 "hierarchy child); in every reached file every feature kind "
                 "(scalar, image, mask, contour, trace, user-shaped) read "
@@ -234,7 +234,7 @@ CHECKS = {
                      "of join input orders x missing-feature subsets x "
                      "acquisition times on the real CLI functions vs. numpy "
                      "slicing/concatenation",
-        "text": "split: every (N, size) with N<=8 (quick) / 12 (thorough), "
+        "text": "split: every (N, size) with N<=10 (quick) / 12 (thorough), "
                 "size 1..N+2, plus zero boundary images with both flag "
                 "settings: part count, part sizes, every feature of every "
                 "part equals the corresponding slice. join: k=2 all orders "
@@ -419,7 +419,7 @@ CHECKS = {
                      "poisoned excluded events x analysis entry points "
                      "(differential vs. a dataset of the selected events) "
                      "plus reference estimators",
-        "text": "All 2^8 (quick) / 2^10 (thorough) filter masks on a "
+        "text": "All 2^9 (quick) / 2^10 (thorough) filter masks on a "
                 "dataset whose excluded events carry 1e12 / NaN / inf / "
                 "negative / 1e300 values: every statistic x 2 features, "
                 "Events and %-gated, 3 KDE types x linear/log x (event "
